@@ -131,6 +131,18 @@ class FaultStorage(Storage):
         return self.inner.delete(key)
 
 
+class LocalFsspecStorage(labtech.storage.FsspecStorage):
+    """The reference implementation given in the comments of labtech/storage.py (fsspec's local filesystem)."""
+
+    def __init__(self, storage_dir):
+        from pathlib import Path
+        super().__init__(Path(storage_dir).resolve())
+
+    def fs_constructor(self):
+        from fsspec.implementations.local import LocalFileSystem
+        return LocalFileSystem()
+
+
 class _LineInjector:
     FILES = ('/labtech/cache.py', '/labtech/storage.py', '/labtech/serialization.py')
 
